@@ -105,9 +105,15 @@ func (f *vFS) Stat(name string) (os.FileInfo, error) {
 	f.rec("Stat", name, 0, 0, nil)
 	return vInfo{name, int64(len(f.content))}, nil
 }
-func (f *vFS) Chmod(name string, mode os.FileMode) error { f.rec("Chmod", name, 0, mode, nil); return nil }
-func (f *vFS) Chown(name string, uid, gid int) error     { f.rec("Chown", name, 0, 0, nil); return nil }
-func (f *vFS) Chtimes(name string, a, m time.Time) error { f.rec("Chtimes", name, 0, 0, nil); return nil }
+func (f *vFS) Chmod(name string, mode os.FileMode) error {
+	f.rec("Chmod", name, 0, mode, nil)
+	return nil
+}
+func (f *vFS) Chown(name string, uid, gid int) error { f.rec("Chown", name, 0, 0, nil); return nil }
+func (f *vFS) Chtimes(name string, a, m time.Time) error {
+	f.rec("Chtimes", name, 0, 0, nil)
+	return nil
+}
 
 func (v *vFile) Close() error {
 	v.fs.rec("Close", v.name, 0, 0, nil)
